@@ -174,6 +174,9 @@ type Conn struct {
 
 	failWrites atomic.Pointer[error]
 	nextStream atomic.Uint64
+	gateMu     sync.Mutex
+	closeGate  <-chan struct{} // Close blocks on it first (a transport Close that blocks)
+	closeEnter chan struct{}   // closed when Close has been entered and is waiting on the gate
 	// WrittenBytes counts payload bytes accepted by Write on this end.
 	WrittenBytes atomic.Int64
 }
@@ -254,6 +257,13 @@ func (c *Conn) AcceptStream(ctx context.Context) (transport.Stream, error) {
 // draining what was already written and its writes fail.
 func (c *Conn) Close() error {
 	c.once.Do(func() {
+		c.gateMu.Lock()
+		g, e := c.closeGate, c.closeEnter
+		c.gateMu.Unlock()
+		if g != nil {
+			close(e)
+			<-g
+		}
 		close(c.done)
 		c.mu.Lock()
 		ss := append([]*Stream(nil), c.streams...)
@@ -263,6 +273,16 @@ func (c *Conn) Close() error {
 		}
 	})
 	return nil
+}
+
+// GateClose makes the (first) Close of this end block until gate is closed; the returned
+// channel is closed when Close has been entered. Models a transport whose Close blocks.
+func (c *Conn) GateClose(gate <-chan struct{}) <-chan struct{} {
+	c.gateMu.Lock()
+	defer c.gateMu.Unlock()
+	c.closeGate = gate
+	c.closeEnter = make(chan struct{})
+	return c.closeEnter
 }
 
 // FailWrites makes every later Write on this end fail with err (nil restores). Reads are
